@@ -219,7 +219,23 @@ void UseEntry() {
 
 struct Cmp { int v; bool operator==(const Cmp& o) const { return v == o.v; } bool operator<(const Cmp& o) const { return v < o.v; } Cmp() = default; Cmp(int x) : v{x} {} };
 
+// Copies from NON-const lvalues: overload resolution must select the copy constructor / copy assignment, not a converting or
+// forwarding template (rule CH reads the resolved callee of each of these constructions).
+void UseLvalueCopies() {
+  Optional<bool> ob; Optional<bool> ob2{ob}; Optional<bool> ob3 = ob; (void)ob2; (void)ob3;
+  Optional<int> oi; Optional<int> oi2{oi}; (void)oi2;
+  Optional<std::string> os; Optional<std::string> os2{os}; (void)os2;
+  Optional<Optional<bool>> oob; Optional<Optional<bool>> oob2{oob}; (void)oob2;
+  Result<Err, bool> rb; Result<Err, bool> rb2{rb}; (void)rb2;
+  Result<Err, std::string> rs; Result<Err, std::string> rs2{rs}; (void)rs2;
+  Variant<bool, int> vb; Variant<bool, int> vb2{vb}; (void)vb2;
+  Variant<int, std::string> vs; Variant<int, std::string> vs2{vs}; (void)vs2;
+  Entry<bool, 1> eb; Entry<bool, 1> eb2{eb}; Optional<bool> sliced{eb}; (void)eb2; (void)sliced;
+  Entry<std::string, 1> es; Entry<std::string, 1> es2{es}; (void)es2;
+}
+
 void All() {
+  UseLvalueCopies();
   UseOptional<std::string, const char*>(std::string{"a"}, "b");
   UseOptional<int, short>(1, short{2});
   UseOptional<Cmp, int>(Cmp{1}, 2);
